@@ -98,6 +98,9 @@ def make_namespace(ns=None):
         yield k
         yield k + 1
 
+    async def aboom(k):
+        raise KeyError('b%d' % k)
+
     def plong(k):
         # five lines holding the characters that matter to string formatting of a failure report
         print('row %d: 100%% done' % k)
@@ -116,7 +119,7 @@ def make_namespace(ns=None):
         raise QuietError('u%d' % k)
 
     ns.update({'empt': empt, 'quiet': quiet, 'boomq': boomq, 'eqo': EqObj})
-    ns.update({'plong': plong, 'T': T, 't': t, 'pv': pv, 'boom': boom, 'bad': bad, 'badp': badp, 'ext': ext, 'aw': aw, 'agen': agen, 'deco': (lambda f: f)})
+    ns.update({'plong': plong, 'T': T, 't': t, 'pv': pv, 'boom': boom, 'bad': bad, 'badp': badp, 'ext': ext, 'aw': aw, 'agen': agen, 'aboom': aboom, 'deco': (lambda f: f)})
     return ns, T
 
 
@@ -178,6 +181,11 @@ def statement(kind, k):
         return ['print("r%d"); raise ValueError("m%%d" %% t(%d))' % (k, k)], 'r%d\n' % k, None, False, ('ValueError', 'm%d' % k)
     if kind == 'callraise':
         return ['boom(t(%d))' % k], '', None, True, ('KeyError', "'b%d'" % k)
+    if kind == 'awaitcallraise':
+        # the exception leaves an AWAITED coroutine, in a statement that is not a bare expression (the part runs as a coroutine in exec mode)
+        return ['y%d = await aboom(t(%d))' % (k, k)], '', None, False, ('KeyError', "'b%d'" % k)
+    if kind == 'awaitprintraise':
+        return ['print("r%d"); await aw(0); raise ValueError("m%%d" %% t(%d))' % (k, k)], 'r%d\n' % k, None, False, ('ValueError', 'm%d' % k)
     if kind == 'falsyraise':
         return ['raise empt(t(%d))' % k], '', None, False, ('EmptyProblems', 'e%d' % k)
     if kind == 'quietraise':
